@@ -226,7 +226,7 @@ class Component(PrintObject):
     # Define structures
     for struct in list(self.structs.values()):
       strands = " + ".join([strand.full_name for strand in struct.strands])
-      outfile.write("structure [%dnt] %s = %s : %s\n" % (struct.opt, struct.full_name, strands, struct.struct))
+      outfile.write("structure [%gnt] %s = %s : %s\n" % (struct.opt, struct.full_name, strands, struct.struct))
     
     # Define kinetics
     for kin in list(self.kinetics.values()):
